@@ -12,6 +12,13 @@ Theorem C04_source_protocol_sound :
   sound_proto arc_proto = true /\ arc_incr_is_rmw = true /\ arc_decr_is_rmw = true /\ arc_incr_bound_ok = true.
 Proof. repeat split; vm_compute; reflexivity. Qed.
 
+(** In the machine a handle that has been dropped makes no further access ([alive = false]).  The heap handle of the source is
+    `Copy`, so the borrow checker does not enforce this: the table lists every `x.explicit_drop()` of today's source and whether
+    `x` is used again afterwards in its block (the private copy of a shared buffer must be made BEFORE the share is handed back),
+    and whether `try_unwrap` still takes the payload only behind the acquiring test `is_unique()`. *)
+Theorem C04_release_is_last_use : forallb (fun s => snd s) release_sites = true /\ Nat.leb 4 (List.length release_sites) = true.
+Proof. split; vm_compute; reflexivity. Qed.
+
 (** every schedule, any number of threads, handles and loans: no data race on the payload, no access after the free,
     no second free ([err] is set by any of these) *)
 Theorem C04_race_free : forall sc, err (run arc_proto sc) = false.
